@@ -59,9 +59,11 @@ def process_signature(app, what, name, obj, options,
             pass
     try:
         sig = specifiers.signature(obj).evaluated()
-    except (TypeError, ValueError):
+    except Exception:
         # inspect.signature raises ValueError if obj is callable but it can't
-        # determine a signature, eg. built-in objects
+        # determine a signature, eg. built-in objects; evaluating postponed
+        # annotations can raise anything (NameError for names only imported
+        # under TYPE_CHECKING)
         return sig, return_annotation
     ret_annot = sig.return_annotation
     if ret_annot != sig.empty:
